@@ -3,7 +3,7 @@
     mapped to their OCaml counterparts); N, positive, Z, Flocq's binary_float and everything else
     stay Coq datatypes. *)
 Require Import PM.Base PM.Varint PM.Oracles PM.Directory PM.Params PM.Stream PM.Float PM.Header
-               PM.Hilbert PM.TileManager PM.DirWriter PM.DirReader PM.Archive PM.History PM.FinishSpec PM.ReadWindows PM.IO.
+               PM.Hilbert PM.TileManager PM.DirWriter PM.DirReader PM.Archive PM.History PM.FinishSpec PM.ReadWindows PM.IO PM.SpecLookup.
 From Coq Require Import ExtrOcamlBasic.
 Extraction Language OCaml.
 Extraction "extracted/model.ml"
@@ -13,7 +13,7 @@ Extraction "extracted/model.ml"
   encode_header decode_header encode_stored decode_stored to_stored of_stored
   f64_of_bits bits_of_f64 stored_of_deg deg_of_stored stored_of_deg_trunc
   tile_id zxy in_grid hilbert_spec spec_tile_id zoom_base xy2h h2xy
-  write_directories read_directories range_end_inc in_range
+  write_directories read_directories range_end_inc in_range spec_lookup
   finish logical spec_finish
   to_writer to_bytes from_reader get_tile_xyz pm_new
   step run open_windows read_exact read_to_end write_all fetch
